@@ -96,25 +96,54 @@ def oracle_fan(case, ctx):
 
 def strat_ray(tier):
     off = st.integers(-10**6, 10**6) | st.integers(-3, 3)
-    return st.fixed_dictionaries({
+    # strips far longer than anything else a process has traced so far (tables and buffers sized by earlier queries)
+    strips = st.fixed_dictionaries({
+        'oy': off, 'ox': off, 'h': st.sampled_from([1, 2, 3]), 'w': st.sampled_from([400, 700, 701, 1400] + ([3000] if tier == 'thorough' else [])),
+        'py': st.integers(0, 2), 'px': st.sampled_from([0, 1, -1, -1, -2]), 'rad': st.sampled_from([0.0, math.pi, math.pi, 3.1, -3.13, 0.002]),
+        'step': st.just(0.01), 'fn': st.just('ray'), 'transpose': st.booleans()})
+    usual = st.fixed_dictionaries({
         'oy': off, 'ox': off, 'h': st.integers(1, 11) | st.sampled_from([1, 16, 24, 33, 40]), 'w': st.integers(1, 11) | st.sampled_from([1, 16, 21, 40, 90]),
         'py': st.integers(0, 10) | st.integers(0, 100), 'px': st.integers(0, 10) | st.integers(0, 100),
         'rad': st.floats(-10.0, 10.0, allow_nan=False) | st.sampled_from([0.0, math.pi / 2, math.pi, -math.pi / 2, math.pi / 4, 3 * math.pi / 4, math.atan2(1, 2)]),
         'step': st.sampled_from([0.01, 0.01, 0.02, 0.005]),
         'fn': st.sampled_from(['ray', 'ray', 'rays360', 'fancy']),
     })
+    return st.one_of([usual] * 14 + [strips])
+
+
+_FIRST = [False]
+
+
+def longest_first(ctx):
+    """the first ray a process traces is by far its longest (tables and buffers that grow with demand start from their initial size):
+    shard k begins with a strip of 700 / 1400 / 2800 / 701 cells traced from end to end, forwards and backwards"""
+    if _FIRST[0]:
+        return
+    _FIRST[0] = True
+    L = [700, 1400, 2800, 701][ctx.shard % 4]
+    for (h, w, origin, rad) in ((1, L, (0, L - 1), math.pi), (3, L, (1, 0), 0.0), (L, 2, (L - 1, 1), -math.pi / 2)):
+        a = [[0, h - 1], [0, w - 1]]
+        ray = rt.compute_ray(Position(*origin), objs.build_area(a), radians=rad, step_size=0.01)
+        cells = check_ray(ctx, ray, origin, a, f'first query of the process, a {h}x{w} strip from {origin} at angle {rad}')
+        if len(cells) < L and h <= 3:
+            ctx.fail(f'first query of the process: the ray along a {h}x{w} strip from {origin} visits only {len(cells)} cells', {'kind': 'ray'})
+    ctx.ev.count(f'prelude:longest_first_{L}')
 
 
 def oracle_ray(case, ctx):
+    longest_first(ctx)
     h, w = case['h'], case['w']
+    py, px, rad = case['py'], case['px'], case['rad']
+    if case.get('transpose'):
+        h, w, py, px, rad = w, h, px, py, math.pi / 2 - rad
     a = [[case['oy'], case['oy'] + h - 1], [case['ox'], case['ox'] + w - 1]]
-    origin = (case['oy'] + case['py'] % h, case['ox'] + case['px'] % w)
+    origin = (case['oy'] + py % h, case['ox'] + px % w)
     A = objs.build_area(a)
     P = Position(*origin)
     if case['fn'] == 'ray':
-        ray = guarded(ctx, 'compute_ray', rt.compute_ray, P, A, radians=case['rad'], step_size=case['step'])
-        check_ray(ctx, ray, origin, a, f'angle {case["rad"]} step {case["step"]}')
-        again = rt.compute_ray(P, A, radians=case['rad'], step_size=case['step'])
+        ray = guarded(ctx, 'compute_ray', rt.compute_ray, P, A, radians=rad, step_size=case['step'])
+        check_ray(ctx, ray, origin, a, f'angle {rad} step {case["step"]}')
+        again = rt.compute_ray(P, A, radians=rad, step_size=case['step'])
         if as_cells([again]) != as_cells([ray]):
             ctx.fail('compute_ray is not deterministic', {'kind': 'ray_determinism'})
     elif case['fn'] == 'rays360':
@@ -135,7 +164,7 @@ def oracle_ray(case, ctx):
         pass
     else:
         ctx.fail('compute_ray accepts an origin outside the area', {'kind': 'ray'})
-    ctx.ev.case(case, nt=(h * w >= 2), classes=['fn:' + case['fn'], 'far_offset' if abs(case['oy']) > 1000 else 'near_offset'] + (['large_area'] if max(h, w) >= 16 else []))
+    ctx.ev.case(case, nt=(h * w >= 2), classes=['fn:' + case['fn'], 'far_offset' if abs(case['oy']) > 1000 else 'near_offset'] + (['large_area'] if max(h, w) >= 16 else []) + (['strip>=400'] if max(h, w) >= 400 else []))
 
 
 # ------------------------------------------------------------------ (c) query histories (caching)
@@ -185,8 +214,8 @@ CHECKS = [
           rule='every area up to 5x7 plus 6x6, 7x5, 7x7 (thorough: every area up to 9x9) x every origin x every ray of the fan: start, containment, uniqueness, 8-adjacency, border end; coverage; unobstructed visibility; cached == uncached',
           required=['7x7']),
     Check('single_rays', oracle_ray, strategy=strat_ray, examples={'quick': 600, 'thorough': 3000}, shards={'quick': 4, 'thorough': 16},
-          rule='areas up to 11x11 at arbitrary (also huge) integer offsets x origin x arbitrary angle x step size; 360-degree and corner fans at offsets',
-          required=['far_offset', 'fn:ray', 'fn:fancy', 'fn:rays360', 'large_area']),
+          rule='areas up to 11x11 (also up to 40x90, and strips of 1-3 x 400..1400 cells traced end to end) at arbitrary (also huge) integer offsets x origin x arbitrary angle x step size; 360-degree and corner fans at offsets',
+          required=['far_offset', 'fn:ray', 'fn:fancy', 'fn:rays360', 'large_area', 'strip>=400']),
     Check('query_histories', oracle_hist, strategy=strat_hist, examples={'quick': 150, 'thorough': 600}, shards={'quick': 4, 'thorough': 16},
           rule='sequences of 2-12 fan queries (same origin in different areas, repeats) through the cache: every answer valid, equal to an uncached computation and to the first answer for that key',
           required=['repeat_query']),
